@@ -31,7 +31,7 @@ func init() {
 			"(simple and compound events, success=yes/no, res=success/failed/1/0, with/without EXECVE, EOE- and PROCTITLE-terminated) pushed through the real Read loop (parser, reassembler, tickers, tracker); " +
 			"each UserAction is matched to its kernel event by timestamp and compared with generator ground truth (outcome, session, timestamp) and with aucoalesce run on exactly those records (action/how/object/process_args); " +
 			"identity immutability over the whole session; non-trivial = at least 3 UserActions including a failed one or one with arguments; distinct = distinct (stream hash, schedule hash)",
-		Quick: 2500, Thorough: 100000,
+		Quick: 6000, Thorough: 150000,
 	})
 	register(&propDef{
 		ID: "C15", Level: "fault_enumeration",
@@ -42,7 +42,7 @@ func init() {
 		Rule: "boundary: records of 2-3 kernel events (<=4 records each) interleaved in a taped merge order that keeps per-event order, EOE- and PROCTITLE-terminated groups, empty lines, fed to the real parseAuditLogs + reassembler + reassembler callback around a counting correlator; " +
 			"read-faults: audit streams for bound sessions through the real Read with one fault enumerated within each group of runs: malformed line at position p, write error at the k-th event, invalid login {pid 0, nil source, empty credential} at a taped point, " +
 			"unparsable PID in a LOGIN record, two failures in one run, a single transient write failure at the k-th event of a hold-queue flush; non-trivial = records of different events were interleaved (boundary) or the fault fired before the end of the stream (faults); distinct = distinct (stream hash, fault, position, schedule hash)",
-		Quick: 3000, Thorough: 120000,
+		Quick: 8000, Thorough: 200000,
 	})
 }
 
